@@ -293,8 +293,38 @@ def run(ctx):
         eff = Effects(ctx)
         muts = [m for m in eff.mutations(v.fi) if m.root == v.fi.params[0].arg]
         allowed = {id(r) for r in removes}
+        def only_removals(gfi, root, depth=0):
+            """every mutation of `root` in the helper gfi is a remove_node(s) / remove_edge(s) call on it (helpers of helpers followed)"""
+            if depth > 3:
+                return False
+            for m2 in [x for x in eff.mutations(gfi) if x.root == root]:
+                n2 = m2.node
+                if isinstance(n2, ast.Call) and isinstance(n2.func, ast.Attribute) and n2.func.attr in ("remove_node", "remove_edge", "remove_nodes", "remove_edges") and norm(n2.func.value) == root:
+                    continue
+                if isinstance(n2, ast.Call) and not isinstance(n2.func, ast.Attribute):
+                    sub = ctx.callees(gfi, n2)
+                    ok2 = bool(sub)
+                    for g2 in sub:
+                        pn2 = [a.arg for a in g2.params]
+                        roots2 = [pn2[i] for i, a in enumerate(n2.args) if isinstance(a, ast.Name) and a.id == root and i < len(pn2)] + [k.arg for k in n2.keywords if isinstance(k.value, ast.Name) and k.value.id == root]
+                        ok2 = ok2 and bool(roots2) and all(only_removals(g2, r2, depth + 1) for r2 in roots2)
+                    if ok2:
+                        continue
+                return False
+            return True
+
         for m in muts:
-            res.check(id(m.node) in allowed, "E-ONLY", f, m.text(), "mutation", f"the hypergraph is modified other than through remove_node / remove_edge: {m.why}", loc(m.fi, m.node))
+            ok_m = id(m.node) in allowed
+            if not ok_m and isinstance(m.node, ast.Call) and not isinstance(m.node.func, ast.Attribute):
+                # a private helper of the filter module that is handed the hypergraph and only removes from it
+                subs = ctx.callees(v.fi, m.node)
+                hgp = v.fi.params[0].arg
+                ok_m = bool(subs)
+                for g in subs:
+                    pn = [a.arg for a in g.params]
+                    roots = [pn[i] for i, a in enumerate(m.node.args) if isinstance(a, ast.Name) and a.id == hgp and i < len(pn)] + [k.arg for k in m.node.keywords if isinstance(k.value, ast.Name) and k.value.id == hgp]
+                    ok_m = ok_m and bool(roots) and g.module.relpath.startswith("hypergraphx/filters/") and all(only_removals(g, r_) for r_ in roots)
+            res.check(ok_m, "E-ONLY", f, m.text(), "mutation", f"the hypergraph is modified other than through remove_node / remove_edge: {m.why}", loc(m.fi, m.node))
         if not muts:
             handed_on = any(isinstance(n, ast.Lambda) for n in ast.walk(v.fi.node)) or any(isinstance(n, ast.Call) and ctx.callees(v.fi, n) and any(isinstance(x, ast.Name) and x.id == v.fi.params[0].arg for a_ in list(n.args) + [k.value for k in n.keywords] for x in ast.walk(a_)) for n in walk_no_nested(v.fi.node))
             res.add("E-ONLY", f, "hypergraph.remove_node(...)", "mutation", "unknown" if handed_on else "violation", "filter_hypergraph never modifies the hypergraph" if not handed_on else "no mutation found in filter_hypergraph itself; the hypergraph (or its bound methods) is handed to helpers / lambdas", loc(v.fi, v.fi.node))
